@@ -31,7 +31,7 @@ func genC05(dir, tier string, seed int64) {
 		n = 15000
 	}
 	cw := newCaseWriter(dir, "C05_conv", opHeader("CheckC05"), opFooter,
-		"seeded random, stratified: 1-D and 2-D; N,C,M in 1..3; spatial extents 2..7 per axis independently (non-square); kernel extents 1..3 per axis independently (extent 1 kept a minority: mostly refused); strides 1..3 and dilations 1..2 per axis independently; pads 0..2 per side independently; auto_pad in {absent, NOTSET, SAME_UPPER, SAME_LOWER, VALID}; kernel_shape given or inferred; group absent or 1; bias present/absent; float32 and float64; integer-valued data in -3..3 so that float arithmetic is exact and results are compared exactly", false, 300)
+		"seeded random, stratified: 1-D and 2-D; N,C,M in 1..3; spatial extents 2..7 per axis independently (non-square); kernel extents 1..3 per axis independently (extent 1 kept a minority: mostly refused); strides 1..3 and dilations 1..2 per axis independently; pads 0..2 per side independently; auto_pad in {absent, NOTSET, SAME_UPPER, SAME_LOWER, VALID}; kernel_shape given or inferred; group absent, 1, or (1 case in 14 each) another value / an attribute Conv does not know, inserted at a random position of the attribute list, with the weight shape of a grouped convolution in half of them; bias present/absent; float32 and float64; integer-valued data in -3..3 so that float arithmetic is exact and results are compared exactly", false, 300)
 	r := rand.New(rand.NewSource(seed))
 	for c := 0; c < n; c++ {
 		nsp := 1 + r.Intn(2)
@@ -87,8 +87,32 @@ func genC05(dir, tier string, seed int64) {
 			}
 			attrs = append(attrs, aInts("kernel_shape", k64))
 		}
-		if r.Intn(6) == 0 {
+		kC := C // channels of the kernel tensor
+		insertAt := func(a attr) {
+			i := r.Intn(len(attrs) + 1)
+			attrs = append(attrs[:i], append([]attr{a}, attrs[i:]...)...)
+		}
+		switch r.Intn(14) {
+		case 0, 1:
 			attrs = append(attrs, aInt("group", 1))
+		case 2:
+			insertAt(aInt("group", 1))
+		case 3: // grouped / depthwise convolution is not implemented: the node must be refused, wherever the attribute stands
+			g := int64(2 + r.Intn(2))
+			if r.Intn(2) == 0 {
+				g = int64(C)
+			}
+			if g > 1 && C%int(g) == 0 && r.Intn(2) == 0 {
+				kC = C / int(g) // the weight shape a grouped convolution really has
+			}
+			insertAt(aInt("group", g))
+			count("group", "not 1")
+		case 4:
+			insertAt(aInt("group", 0))
+			count("group", "not 1")
+		case 5: // an attribute Conv does not know
+			insertAt([]attr{aInt("verif_unknown", 1), aInts("output_padding", []int64{0, 0}), aStr("layout", "NCHW")}[r.Intn(3)])
+			count("group", "unknown attribute")
 		}
 		ok := true
 		for i := 0; i < nsp; i++ {
@@ -103,7 +127,7 @@ func genC05(dir, tier string, seed int64) {
 		}
 		f64 := r.Intn(4) == 0
 		xs := append([]int{N, C}, sp...)
-		kshape := append([]int{M, C}, ks...)
+		kshape := append([]int{M, kC}, ks...)
 		x, k := intFloat(r, f64, xs...), intFloat(r, f64, kshape...)
 		var b tensor.Tensor
 		if r.Intn(2) == 0 {
